@@ -1270,6 +1270,7 @@ def inj_reference(cx: Ctx) -> Planted:
             "type:undefined-in-import",
             "type:not-imported-here",
             "type:nested-unqualified",
+            "type:nested-just-closed",
             "cap:undefined",
             "cap:later",
             "cap:type",
@@ -1372,6 +1373,22 @@ def inj_reference(cx: Ctx) -> Planted:
         f.items.insert(cx.int(0, top), outer)
         set_parents(cx.unit)
         t = TRef(inner.name, None)
+    elif variant == "type:nested-just-closed":
+        # a type nested one level deeper, legitimately USED inside its own scope, then named bare by the
+        # enclosing message right after that scope closed (nothing else opened in between): still out of scope
+        kind: Any = Enum(cx.type_name(), 2, [(cx.member_name(), 0)]) if cx.coin() else Message(cx.type_name())
+        inner = Message(cx.type_name())
+        inner.items.append(kind)
+        inner.items.append(Field(cx.field_name(), TRef(kind.name, kind), 1))
+        m.items.append(inner)
+        set_parents(cx.unit)
+        if cx.coin():
+            m.items.append(Field(cx.field_name(), TRef(inner.name, inner), cx.free_number(m)))
+            set_parents(cx.unit)
+        fl = Field(cx.field_name(), TRef(kind.name, None), cx.free_number(m))
+        m.items.append(fl)
+        set_parents(cx.unit)
+        return Planted("reference", variant, f, [("def", fl)], depth=cx.depth_of(m))
     elif variant == "type:later":
         d = _new_top_def(cx, cx.type_name())
         while isinstance(d, Const):
